@@ -26,7 +26,7 @@ def reasm(prop,extra_quick=(),extra_thorough=()):
     jobs.append(job("api-k4-mif5",".","VH_Reassembler",[prop+"/"],{"k":4,"maxInFlight":5},T,bounds="k=4 operations then Close; maxInFlight=5"))
     return {"jobs":jobs,"assumptions":REASM_ASSUME,"outside":REASM_OUT}
 C["C01"]=reasm("C01")
-C["C01"]["jobs"].append(job("push-text-k3",".","VH_ReassemblerPush",["C01/"],{"k":3,"maxInFlight":2},Q,bounds="k=3 records through Push(typ, raw): record type symbolic (all 65536), well-formed text, sequence in {5,6}, then Close; maxInFlight=2"))
+C["C01"]["jobs"].append(job("push-text-k3",".","VH_ReassemblerPush",["C01/"],{"k":3,"maxInFlight":2},Q,expect=["C01/push-accepted"],bounds="k=3 records through Push(typ, raw): record type symbolic (all 65536), well-formed text, sequence in {5,6}, then Close; maxInFlight=2"))
 C["C01"]["jobs"].append(job("push-text-k4-mif1",".","VH_ReassemblerPush",["C01/"],{"k":4,"maxInFlight":1},T,bounds="k=4 through Push, maxInFlight=1"))
 C["C01"]["outside"]=[x for x in REASM_OUT if not x.startswith("Push(")]+["Push(typ, raw) with text that does not parse (C04/C05)"]
 C["C02"]=reasm("C02")
